@@ -598,6 +598,12 @@ func (ex *Executor) execSlice(st *State, fr *Frame, x *ssa.Slice) bool {
 			hi = strLen(base.T)
 		}
 		ex.safeObl(st, x, "slice", And(Le(Num(0), lo), Le(lo, hi), Le(hi, strLen(base.T))), "string slice bounds")
+		if lit, ok := litOf(base.T); ok && lo.IsNum() && hi.IsNum() && lo.Num.IsInt64() && hi.Num.IsInt64() &&
+			0 <= lo.Num.Int64() && lo.Num.Int64() <= hi.Num.Int64() && hi.Num.Int64() <= int64(len(lit)) {
+			// constant slice of a literal is a literal
+			fr.vals[x] = Val{T: strLit(lit[lo.Num.Int64():hi.Num.Int64()]), Ty: x.Type()}
+			return true
+		}
 		t := App("substr", SInt, base.T, lo, hi)
 		st.assume(Eq(strLen(t), Sub(hi, lo)))
 		fr.vals[x] = Val{T: t, Ty: x.Type()}
@@ -735,10 +741,16 @@ func (ex *Executor) execGo(st *State, fr *Frame, x *ssa.Go) bool {
 		ev.Fn = funcKeyOrName(sc)
 		if fv.Fn != nil {
 			ev.Args = append(ev.Args, ex.capturedVals(st, fv.Fn.Bind)...)
+			for _, v := range sc.FreeVars {
+				ev.ArgNames = append(ev.ArgNames, v.Name())
+			}
 		}
 	} else if fv.Fn != nil {
 		ev.Fn = funcKeyOrName(fv.Fn.Fn)
 		ev.Args = append(ev.Args, ex.capturedVals(st, fv.Fn.Bind)...)
+		for _, v := range fv.Fn.Fn.FreeVars {
+			ev.ArgNames = append(ev.ArgNames, v.Name())
+		}
 	} else {
 		ev.Fn = "?"
 	}
